@@ -157,10 +157,13 @@ def gen_cases(inv, all_bundled, rng, per_kind, successor=None):
         # ---- duplicated node name (same library-ness as the original)
         for n in sample(plain):
             short = inv.short[n]
-            parent = rng.choice([None, rng.choice(plain)])
+            lib = tags[n]["lib"] if partnered else None
+            # the copy goes next to the original or below another node of the same kind (library / standard), so that it
+            # is a plain duplicate and not a library-vs-standard clash (that is kind dup_cross)
+            same_kind = [p for p in plain if not partnered or bool(tags[p]["lib"]) == bool(lib)]
+            parent = rng.choice([None, rng.choice(same_kind)])
             if parent is not None and (parent == n or parent.startswith(n + "/")):
                 parent = None
-            lib = tags[n]["lib"] if partnered else None
             add("dup_node", [{"op": "dup", "section": "tags", "name": n, "newname": recase(short), "parent": parent,
                               "inlib": lib}], "tags", token=short, what="second node named like " + n)
         # ---- library node duplicating a standard node / vice versa (partnered only)
